@@ -8,7 +8,16 @@ import (
 
 func BuildMethodParameters(parameters parser.IFormalParametersContext) []core_domain.CodeProperty {
 	var methodParams []core_domain.CodeProperty = nil
-	parameterList := parameters.GetChild(1).(*parser.FormalParameterListContext)
+	// a receiver parameter (void m(Foo this, int x)) precedes the formal parameter list, if there is one
+	var parameterList *parser.FormalParameterListContext
+	for _, child := range parameters.GetChildren() {
+		if list, ok := child.(*parser.FormalParameterListContext); ok {
+			parameterList = list
+		}
+	}
+	if parameterList == nil {
+		return methodParams
+	}
 	formalParameter := parameterList.AllFormalParameter()
 	for _, param := range formalParameter {
 		paramContext := param.(*parser.FormalParameterContext)
